@@ -26,7 +26,7 @@ import c09lib as L9
 
 PID = "C01"
 TREES = C.SCRATCH / "eventlist" / "trees"
-LAYOUT = b"4"
+LAYOUT = b"5"
 MODEL_VO = ["EventList/Key.vo", "EventList/KeyProofs.vo", "EventList/Model.vo", "EventList/Refine.vo", "EventList/HeapqProofs.vo"]
 TRANSLATOR = C.VERIF / "translator" / "py2gallina_eventlist.py"
 AGREE = C.COQ / "EventList" / "GenAgree.v"
@@ -99,6 +99,9 @@ class EventListTree(L9.StatsTree):
         self.info = json.loads(j.read_text())
         if Path(self.info.get("repo", "")).resolve() != C.REPO.resolve():
             raise RuntimeError(f"translator read {self.info.get('repo')} but the check runs against {C.REPO}")
+
+    # tactics are items too: one that names a generated definition cannot be defined when that definition is missing
+    _ITEM = re.compile(r"^[ \t]*(Theorem|Lemma|Definition|Fixpoint|Ltac)\s+([A-Za-z0-9_']+)", re.M)
 
     @classmethod
     def _items(cls, text: str):
